@@ -151,6 +151,7 @@ pub fn minimise_p(ctx: &Ctx, wd: &WorkerDir, job: &Job, p: &Perturb, inv: &str) 
     try_reset!(host);
     try_reset!(ncpu);
     try_reset!(src_symlink);
+    try_reset!(tty_mask);
     try_reset!(prev_run);
     try_reset!(persist_home);
     try_reset!(hash_seed);
